@@ -4,10 +4,11 @@ from props import common, mix
 
 THM = "NextestModel.Thm.C07"
 THM_EXTRA = ["NextestModel.Thm.C07Unit"]
-GEN = []
+GEN = ["tables"]
+GEN_GROUPS = ["attemptloop"]
 CHECK_MODULES = ["NextestModel.Lemmas.Unit", "NextestModel.Model.Unit", "NextestModel.Lemmas.Attempts", "NextestModel.Model.Attempts"]
 TRUSTED = ["model: Model/Classify (BackoffIter over exact nanoseconds); f64 rounding of Duration::mul_f64 tolerated to 2 ns; the rand jitter sample is not modelled (bounds are checked on the implementation's values)"]
-ASSUMPTIONS = ["PARTIAL: the attempt loop itself (retry after each failed attempt until a pass or N+1 attempts, never after a pass, never once cancelled, delay respected with pauses excluded) is executor behaviour, exercised end-to-end only (pending); --retries replacing every policy is C06.cli_retries_wins plus the end-to-end engine"]
+ASSUMPTIONS = ["PARTIAL: the attempt loop itself (retry after each failed attempt until a pass or N+1 attempts, never after a pass, never once cancelled, delay respected with pauses excluded) is executor behaviour: its text is read segment by segment on every run (table group attemptloop: attempt_loop_is_as_modelled — the loop is exactly the model's clauses, nothing else in it) and it is exercised end-to-end (families mix and cancel: the model is the acceptor of every real history); --retries replacing every policy is C06.cli_retries_wins plus the end-to-end engine"]
 
 
 def run_p(seed, tier, replay=None):
